@@ -10,10 +10,10 @@ replaced (both directions), and a consistent renaming of all user-chosen identif
 diagnostic messages (after renaming, without positions), the supported-analysis verdict and the canonical document (up to
 renaming) must equal those of the original."""
 import json, os, random, re
-import vf, docgen, xmlgen, faults, c05
+import vf, docgen, xmlgen, faults, c05, lexconf
 
 ALIAS = [("&&", "and"), ("||", "or"), ("!", "not ")]
-GAPS = [" ", "\n", " /* c */ ", " // c\n", "\t \n  ", " /** doc **/ ", "/***/", " /* a * b / c */ ", " /*/ x */ ", " /* E EX EXPECT */ ", " /*\n * multi\n * line\n ***/ ", " // a /* b\n", "\r\n"]
+GAPS = [" ", "\n", " /* c */ ", " // c\n", "\t \n  ", " /** doc **/ ", "/***/", " /* a * b / c */ ", " /*/ x */ ", " /* E EX EXPECT */ ", " /* EXPECT:T */ ", "/*EXPECT:T*/", "/* see EXPECT:x<=3*/", "/*EXPECT:*/", "/*EXPECT:a*b**/", " // EXPECT:F\n", " /*\n * multi\n * line\n ***/ ", " // a /* b\n", "\r\n"]
 USER_NAMES = ["i", "j", "x", "c", "b", "N", "a", "id_t", "pos", "v", "g1", "g2", "g3", "g4", "g5", "p", "w", "r", "y", "e", "d", "q", "u", "l1", "z", "K", "k", "n",
               "Idle", "Busy", "Done", "T1", "T2", "T3", "P1", "P2", "P3", "P4"]
 REN = re.compile(r"(?<![A-Za-z0-9_])(%s)(?![A-Za-z0-9_])" % "|".join(sorted(USER_NAMES, key=len, reverse=True)))
@@ -141,6 +141,8 @@ def run(tier):
     for m in ar.emitted[0]["missing"]:
         c.finding("c09:grammar:alias-twin:%s" % m["lhs"], "the production %s -> %s spells an operator at position %d and has no twin production with the other spelling and the same action: the two spellings are not interchangeable there" % (
             m["lhs"], " ".join(m["rhs"]), m["at"]), {"entry": "AliasRules", "production": m})
+    # ---- the scanner: what is inside a comment, and which separator stands between two lexemes, does not matter (Lex.tla on the extracted rules; the real scanner through the hook)
+    n_scan = lexconf.run(c, quick, "C09")
     # ---- metamorphic replay
     models = docgen.generate(c, ["labels", "mixed"], 700 if quick else 5000, c.seed, bfs=False)
     cand = [e["m"] for e in models if faults.blocks(e["m"])]
@@ -172,8 +174,8 @@ def run(tier):
             c.finding("c09:%s:%s:%s" % (fam, kind.split(":")[0], docgen.diff_class(d[0])),
                       "rewrite [%s] %s of a %s model changes the verdict at %s: %s -> %s" % (fam, desc, kind, d[0][0], json.dumps(d[0][1])[:150], json.dumps(d[0][2])[:150]),
                       {"family": fam, "site": desc, "kind": kind, "original_xml": texts["M%d" % bi], "rewritten_xml": texts["R%d_%d" % (bi, ri)], "differences": d})
-    c.cov["traces_validated_against_impl"] = ncmp
-    c.cov["evaluations"] = ncmp
+    c.cov["traces_validated_against_impl"] = ncmp + n_scan
+    c.cov["evaluations"] = ncmp + n_scan
     c.cov["distinct_nontrivial"] = ncmp
     c.cov["rewrites_by_family"] = byfam
     c.cov["base_models"] = len(bases)
@@ -187,6 +189,9 @@ def run(tier):
 
 
 def replay(path):
+    rec0 = json.load(open(path))["replay"]
+    if rec0.get("entry") == "scan_run":
+        return lexconf.replay(vf.Check("C09", "quick"), rec0)
     rec = json.load(open(path))["replay"]
     c = vf.Check("C09", "quick")
     if "original_xml" not in rec:
